@@ -56,8 +56,8 @@ func (np *nameProv) ok(v ssa.Value, use ssa.Instruction, depth int) (bool, strin
 			if !(ok && isNil && strings.HasSuffix(calleeName(&cl.Call), "telemetrygodev.validate")) {
 				return false
 			}
-			if strip(argsOf(cl)[0]) == strip(b) {
-				return true
+			if strip(argsOf(cl)[0]) == strip(b) || strip(argsOf(cl)[0]) == refine(strip(b), factsAt(use)) {
+				return true // (a report pointer that came back through a result variable is resolved where it is used)
 			}
 			// … or b holds a by-value copy of the report that was validated
 			if ba, isA := strip(b).(*ssa.Alloc); isA {
